@@ -476,6 +476,8 @@ def contract(qualname, **kw):
             if isinstance(v, staticmethod):
                 v = v.__func__
             setattr(c, k, v)
+        if qualname in REGISTRY:
+            raise ValueError(f"two contracts for {qualname}")
         REGISTRY[qualname] = c
         return c
 
